@@ -5,29 +5,12 @@
    statement itself and of the functions it may call, (b) two ways of ending: falling through
    (FOk) or returning to the caller of the current activation (FRet). *)
 Require Import DS.Base DS.FlowTables DS.FlowTablesWf DS.FlowScan DS.Flow DS.FlowTree DS.FlowScanProof
-  DS.FlowLemmas DS.FlowFrame DS.FlowFn DS.FlowFnTree DS.FlowFnScan DS.FlowFnLemmas.
+  DS.FlowLemmas DS.FlowFrame DS.FlowFn DS.FlowFnTree DS.FlowFnDom DS.FlowFnScan DS.FlowFnLemmas.
 Require DS.FlowSim.
 Require Import DSG.GenFlowNames DSG.GenFnNames.
 Open Scope nat_scope.
 Notation set_ifstk_push := FlowSim.set_ifstk_push.
 Notation nth_error_mid1 := FlowSim.nth_error_mid1.
-
-(* ---- no return inside a for-in body -------------------------------------------------------------- *)
-Fixpoint nfr_s (s : fstmt) : bool :=
-  match s with
-  | GCmd _ | GCall _ _ _ | GReturn _ _ => true
-  | GIf _ _ b els _ => nfr_b b && nfr_e els
-  | GWhile _ _ b _ => nfr_b b
-  | GFor _ _ _ b _ => negb (has_return_b b) && nfr_b b
-  end
-with nfr_b (b : fblock) : bool :=
-  match b with GNil => true | GCons s b' => nfr_s s && nfr_b b' end
-with nfr_e (els : felses) : bool :=
-  match els with
-  | HNil => true
-  | HElseIf _ _ b r => nfr_b b && nfr_e r
-  | HElse _ b => nfr_b b
-  end.
 
 (* one-step unfoldings of the interpreter *)
 Section Unfold.
@@ -988,13 +971,151 @@ Proof.
       - cbn. exact (gf_for _ _ _ F3').
       - intros l Hl. cbn. exact (gf_end _ _ _ F3' l Hl). }
     eapply post_pre; [apply fruns_step; exact St2|exact Fr4|].
-    rewrite <- Hq. apply (Hself w2 p f4 g Hw Hn Hp0). rewrite Hq.
+    pose proof (Hself w2 p f4 g Hw Hn Hp0) as IH2. rewrite Hq in IH2. apply IH2.
     apply (ready_sub lo infn p (S E) p (S E) f f4 g Hr); try lia.
     + exact I4.
-    + eapply EndInv_gframe; eauto.
+    + exact (EndInv_gframe p (S E) lo f f4 HE Fr4).
     + eapply fout_sub; try exact Hfo; try lia. exact (gf_for _ _ _ Fr4).
   - exists f1. split; [|split; [exact I1|exact Fr1]].
     apply fruns_step. eapply fstep1_goto; [exact Hn0|]. rewrite Hstep.
     unfold step_while. rewrite Hmi, Ec. reflexivity.
+Qed.
+
+(* ---- for-in ----------------------------------------------------------------------------------------------- *)
+Definition loop_ok (n : nat) : Prop := forall lo infn sp x hv b e i w p fb f g,
+  pgs (callable_at lo) infn (GFor sp x hv b e) -> nfr_s (GFor sp x hv b e) = true ->
+  fplaced P p (gs (GFor sp x hv b e)) ->
+  ready lo infn p (S (S p + length (gb b))) fb g ->
+  ((i = 0 /\ f = fb) \/
+   (i > 0 /\ f = for_push (mkFC i (mkLM p (S p + length (gb b)))) fb /\
+    aget Nat.eqb (S p + length (gb b)) (f_end fb) = Some gen_endfor_name)) ->
+  post (p, (w, f, g)) (Rl p (S (S p + length (gb b))) lo) (S (S p + length (gb b))) fb g
+       (hfor ds n x hv b i w).
+
+Lemma gloop_case n : block_ok n -> loop_ok n -> loop_ok (S n).
+Proof.
+  intros Hb Hl lo infn sp x hv b e i w p fb f g Hw Hn Hp Hr Hentry.
+  pose proof (gfor_meta_placed P TW (callable_at lo) infn p sp x hv b e Hp Hw) as Hm. fold P0 in Hm.
+  pose proof Hw as (Hsp & He & Hwb).
+  pose proof Hn as Hn2. cbn [nfr_s] in Hn2. apply andb_prop in Hn2. destruct Hn2 as (Hnoret & Hnb).
+  apply negb_true_iff in Hnoret.
+  set (nb := length (gb b)) in *. set (E := S p + nb) in *. set (m := mkLM p E) in *.
+  set (R := Rl p (S E) lo).
+  pose proof Hr as (HloM & Hsep & Hnde & HI & HE & HF & Hfo & Hact).
+  pose proof Hp as Hp0. cbn [gs] in Hp.
+  pose proof (fplaced_nth _ _ _ _ Hp) as Hn0.
+  pose proof (fplaced_tail _ _ _ _ Hp) as Hp1.
+  pose proof (fplaced_app_l _ _ _ _ Hp1) as Hpb.
+  pose proof (fplaced_app_r _ _ _ _ Hp1) as Hpend. fold nb in Hpend.
+  pose proof (fplaced_nth _ _ _ _ Hpend) as HnE. fold E in HnE.
+  assert (HRp : R p) by (apply Rl_in; [exact Hnde|lia]).
+  assert (HRE : R E) by (apply Rl_in; [exact Hnde|lia]).
+  assert (Hci : exists f1,
+    for_call_info P0 p f = (Some (mkFC i m), f1) /\
+    Inv P0 f1 /\ same_stacks fb f1 /\ aget Nat.eqb E (f_end f1) = Some gen_endfor_name /\
+    (forall l, l <> E -> aget Nat.eqb l (f_end f1) = aget Nat.eqb l (f_end fb))).
+  { unfold for_call_info. destruct Hentry as [(Hi & ->)|(Hi & -> & HEb)].
+    - subst i. rewrite (for_pop_top_fout R p fb Hfo HRp). rewrite set_forstk_id. cbv zeta.
+      destruct (for_meta_info_ok P0 fb p m HI Hm) as (f1 & Hmi & I1 & SS1 & E1).
+      rewrite Hmi. exists f1. split; [reflexivity|]. split; [exact I1|]. split; [exact SS1|].
+      split; [rewrite E1; apply aget_aset_same|].
+      intros l Hne. rewrite E1. apply aget_aset_other. exact Hne.
+    - exists fb. cbn [for_push f_forstk set_forstk for_pop_top].
+      assert (Hfm : for_match p (mkFC i m) = true)
+        by (unfold for_match; cbn; rewrite Nat.eqb_refl; reflexivity).
+      rewrite Hfm. cbv beta iota zeta. fold (for_push (mkFC i m) fb). rewrite set_forstk_push.
+      split; [reflexivity|]. split; [exact HI|]. split; [repeat split|]. split; [exact HEb|]. auto. }
+  destruct Hci as (f1 & Hci & I1 & (S1a & S1b & S1c) & HE1 & Hend1).
+  assert (Fr1 : gframe R fb f1).
+  { apply (gframe_intro R fb f1 [] []); auto. intros l Hl0. apply Hend1. intros ->. contradiction. }
+  assert (HEI1 : EndInv f1) by (eapply EndInv_gframe; eauto).
+  assert (Hstep : fstep P p (bkw sp (AFor x hv)) (w, f, g) = lift g (step_for P0 p x hv (w, f))).
+  { rewrite fstep_kw by kwn. unfold P0. rewrite (disp_for (map down P) TW) by exact Hsp. reflexivity. }
+  rewrite hfor_step.
+  destruct (get_next_iteration i (vval hv w) w) as [v|] eqn:Eg.
+  - set (f2 := for_push (mkFC (S i) m) f1).
+    assert (St : fstep1 P (p, (w, f, g)) = Some (S p, (vset x v w, f2, g))).
+    { eapply fstep1_continue; [exact Hn0|]. rewrite Hstep.
+      unfold step_for. rewrite Hci. cbn [fc_iter fc_meta]. rewrite Eg. reflexivity. }
+    assert (HnRin : forall l, (l = p \/ l = E) -> ~ Rl (S p) E lo l).
+    { intros l Hl1 [[H3|H3] _]; [lia|]. destruct Hsep as [Hs0|Hs0]; lia. }
+    assert (Hready2 : ready lo infn (S p) (S p + nb) f2 g).
+    { apply (ready_sub lo infn p (S E) (S p) (S p + nb) fb f2 g Hr); try lia.
+      - eapply Inv_same; [| | |exact I1]; reflexivity.
+      - eapply EndInv_same; [|exact HEI1]. reflexivity.
+      - unfold fout. cbn [f2 for_push f_forstk set_forstk]. constructor.
+        + cbn [fc_meta m lm_start lm_end]. split; apply HnRin; auto.
+        + rewrite S1c. eapply fout_sub; try exact Hfo; try lia. reflexivity. }
+    pose proof (Hb lo infn b (vset x v w) (S p) f2 g Hwb Hnb Hpb Hready2) as IH. fold nb in IH. fold E in IH.
+    destruct (hb ds n b (vset x v w)) as [w2|rv rw| |] eqn:Eb; [| |exact I|exact I].
+    2:{ exfalso. eapply (proj1 (proj2 (no_return ds n))); [exact Hnoret|exact Eb]. }
+    destruct IH as (f3 & R3 & I3 & F3).
+    pose proof (gf_for _ _ _ F3) as Ef. cbn [f2 for_push f_forstk set_forstk] in Ef. rewrite S1c in Ef.
+    assert (HE3 : aget Nat.eqb E (f_end f3) = Some gen_endfor_name).
+    { rewrite (gf_end _ _ _ F3); [exact HE1|]. apply HnRin. auto. }
+    set (fb' := set_forstk (f_forstk fb) f3).
+    assert (St2 : fstep1 P (E, (w2, f3, g)) = Some (p, (w2, for_push (mkFC (S i) m) fb', g))).
+    { eapply fstep1_goto; [exact HnE|]. rewrite fclose_for by auto.
+      unfold step_endfor. rewrite Ef. cbn [for_pop].
+      assert (Hfm : for_match E (mkFC (S i) m) = true)
+        by (unfold for_match; cbn; rewrite Nat.eqb_refl; apply orb_true_r).
+      rewrite Hfm. reflexivity. }
+    assert (Ib' : Inv P0 fb') by (eapply Inv_same; [| | |exact I3]; reflexivity).
+    assert (Frb : gframe R fb fb').
+    { destruct (gf_if _ _ _ F3) as (Jb & Ei & Fi). destruct (gf_wh _ _ _ F3) as (Jw & Ew & Fw).
+      cbn [f2 for_push f_ifstk f_whstk set_forstk] in Ei, Ew.
+      apply (gframe_intro R fb fb' Jb Jw).
+      - cbn. rewrite Ei, S1a. reflexivity.
+      - eapply Forall_impl; [|exact Fi]. intros a [H1 H2]. split; [|exact H2].
+        revert H1. apply Rl_sub; lia.
+      - cbn. rewrite Ew, S1b. reflexivity.
+      - eapply Forall_impl; [|exact Fw]. intros a. apply Rl_sub; lia.
+      - reflexivity.
+      - intros l Hl0. cbn. rewrite (gf_end _ _ _ F3).
+        + cbn. apply Hend1. intros ->. contradiction.
+        + intros Hx. apply Hl0. revert Hx. apply Rl_sub; lia. }
+    assert (Hrb' : ready lo infn p (S E) fb' g).
+    { apply (ready_sub lo infn p (S E) p (S E) fb fb' g Hr); try lia.
+      - exact Ib'.
+      - exact (EndInv_gframe p (S E) lo fb fb' HE Frb).
+      - eapply fout_sub; try exact Hfo; try lia. reflexivity. }
+    eapply post_pre; [eapply fruns_step_then; [exact St|]; eapply fruns_trans; [exact R3|apply fruns_step; exact St2]
+                     |exact Frb|].
+    apply (Hl lo infn sp x hv b e (S i) w2 p fb' (for_push (mkFC (S i) m) fb') g Hw Hn Hp0 Hrb').
+    right. split; [lia|]. split; [reflexivity|]. exact HE3.
+  - exists f1. split; [|split; [exact I1|exact Fr1]].
+    apply fruns_step. eapply fstep1_goto; [exact Hn0|]. rewrite Hstep.
+    unfold step_for. rewrite Hci. cbn [fc_iter fc_meta]. rewrite Eg. reflexivity.
+Qed.
+
+Lemma gfor_case n : loop_ok n -> forall lo infn sp x hv b e w p f g,
+  pgs (callable_at lo) infn (GFor sp x hv b e) -> nfr_s (GFor sp x hv b e) = true ->
+  fplaced P p (gs (GFor sp x hv b e)) ->
+  ready lo infn p (p + length (gs (GFor sp x hv b e))) f g ->
+  post (p, (w, f, g)) (Rl p (p + length (gs (GFor sp x hv b e))) lo)
+       (p + length (gs (GFor sp x hv b e))) f g (hs ds (S n) (GFor sp x hv b e) w).
+Proof.
+  intros Hl lo infn sp x hv b e w p f g Hw Hn Hp Hr.
+  assert (Hq : p + length (gs (GFor sp x hv b e)) = S (S p + length (gb b))).
+  { cbn [gs length]. rewrite !app_length. cbn [length]. lia. }
+  rewrite Hq in *. rewrite hs_for.
+  apply (Hl lo infn sp x hv b e 0 w p f f g Hw Hn Hp Hr). left. auto.
+Qed.
+
+(* ---- all together ------------------------------------------------------------------------------------------ *)
+Lemma gsim_all n : stmt_ok n /\ block_ok n /\ chain_ok n /\ loop_ok n.
+Proof.
+  induction n as [|n (Hs & Hb & Hc & Hl)].
+  - repeat split; red; intros; exact I.
+  - assert (Hb' : block_ok (S n)) by (apply block_case; assumption).
+    split; [|split; [exact Hb'|split; [apply gchain_case; assumption|apply gloop_case; assumption]]].
+    intros lo infn s w p f g Hw Hn Hp Hr.
+    destruct s as [p0|sp c b els e|sp c b e|sp x hv b e|out fn args|sp a].
+    + exact (cmd_case n lo infn p0 w p f g Hp Hr).
+    + exact (gif_case n Hb Hc lo infn sp c b els e w p f g Hw Hn Hp Hr).
+    + exact (gwhile_case n Hs Hb lo infn sp c b e w p f g Hw Hn Hp Hr).
+    + exact (gfor_case n Hl lo infn sp x hv b e w p f g Hw Hn Hp Hr).
+    + exact (call_case n Hb lo infn out fn args w p f g Hw Hp Hr).
+    + destruct Hw as (Hi & Hsp). subst infn. exact (return_case n lo sp a w p f g Hsp Hp Hr).
 Qed.
 End Sim.
